@@ -28,7 +28,8 @@ changes the model the theorems of coq/C06/Properties.v are checked against):
   * size_of::<Register>() of CONTEXT_ARM / CONTEXT_MIPS (context.rs) and of Mips32Context (mips.rs) -> cfi_*_reg_bytes;
     Mips32Context's CpuContext impl (callee values `as u32`), the CONTEXT_MIPS64 flag test and the CFI dispatch of
     mips.rs get_caller_frame, CONTEXT_ARM::register_is_valid and the trait default are pinned.
-  * StackInfoCfi: field order and derive(PartialEq) are pinned (the == of the record table's merge step)."""
+  * StackInfoCfi: field order and derive(PartialEq) are pinned (the == of the record table's merge step).
+  * arm64_old.rs == arm64.rs and the two CpuContext impls are equal modulo the context type name (pinned)."""
 import os
 import re
 import sys
@@ -776,6 +777,19 @@ b_ = ctxrs.index("{", k_)
 e_ = ctxrs.index("\n    }", b_)
 if k_ < 0 or nows(ctxrs[b_ + 1:e_]) != want_default_valid:
     die("CpuContext::register_is_valid (trait default) changed")
+
+# the pre-2016 arm64 context: its unwinder and its CpuContext impl are the arm64 ones modulo the type name, so the
+# arm64 model (table k = 2, post_real's pointer-authentication mask) is also the model of CONTEXT_ARM64_OLD
+def _norm_old(t):
+    return t.replace("CONTEXT_ARM64_OLD", "CONTEXT_ARM64").replace("OldArm64", "Arm64")
+
+
+a64 = open(os.path.join(repo, "minidump-unwind/src/arm64.rs")).read()
+a64o = open(os.path.join(repo, "minidump-unwind/src/arm64_old.rs")).read()
+if _norm_old(a64o) != a64:
+    die("minidump-unwind/src/arm64_old.rs is no longer arm64.rs modulo the context type (front-end B drives CONTEXT_ARM64_OLD against the arm64 model)")
+if _norm_old(impl_block(ctxrs, "impl CpuContext for md::CONTEXT_ARM64_OLD {", "context.rs")) != impl_block(ctxrs, "impl CpuContext for md::CONTEXT_ARM64 {", "context.rs"):
+    die("context.rs: impl CpuContext for CONTEXT_ARM64_OLD differs from the one for CONTEXT_ARM64")
 
 # ----------------------------------------------------------------------------- output
 def lst(items, indent="  "):
